@@ -212,6 +212,8 @@ async fn run(input: RunInput, mode: Mode) -> RunOutput {
     let cpu_bound = w.flag("cpu_bound_handlers", 0.3);
     let mut r_cpu = w.rng("wl:cpu-bound");
     let mut r_hangup = w.rng("wl:hangup");
+    // disconnects issued by application tasks in reaction to a failed call: (time, who, whom, listed then, Ok)
+    let reactive: Arc<Mutex<Vec<(u64, usize, usize, bool, bool)>>> = Default::default();
     // ... and handlers busy on a resource that is always ready (they yield only when tokio's
     // cooperative budget makes them; the process is one busy thread meanwhile, timers fire at
     // the next turn of the timer driver)
@@ -375,6 +377,24 @@ async fn run(input: RunInput, mode: Mode) -> RunOutput {
                 }
             }
         } else if kind < 55 {
+            // (in part of the cases the *other* side has a long call in flight to n{i} and an
+            // application task that reacts to its failure by disconnecting n{i} on its side too -
+            // at an instant at which the connection may already be closed but not yet taken off
+            // the list: whoever takes it off, an explicit disconnect of a listed peer publishes
+            // LostPeer(Requested))
+            if mode == Mode::C09 && !faulty && r_hangup.gen_bool(0.3) && slots[i].node.net.peers().contains(&ids[j]) && slots[j].node.net.peers().contains(&ids[i]) && silent_death.is_none() {
+                let (net, pi, w2, log) = (slots[j].node.net.clone(), ids[i], w.clone(), reactive.clone());
+                tokio::spawn(async move {
+                    let r = net.rpc(pi, Request::new(Bytes::from_static(b"long")).with_header("x-delay-ms", "60000")).await;
+                    if r.is_err() {
+                        let listed = net.peers().contains(&pi);
+                        let ok = net.disconnect(pi).is_ok();
+                        log.lock().unwrap().push((w2.now_ns(), j, i, listed, ok));
+                    }
+                });
+                sleep_ms(2 * lat_max / 1000 + 5).await;
+                w.probe("disconnect-in-reaction-to-a-failed-call");
+            }
             // explicit disconnect: immediate local effect
             let was_listed = slots[i].node.net.peers().contains(&ids[j]);
             let now = w.now_ns();
@@ -530,6 +550,20 @@ async fn run(input: RunInput, mode: Mode) -> RunOutput {
                 // (= closed) it, or saw it closed: RPCs over it must fail
                 w.violate("rpc-over-a-removed-connection-succeeds", "stale-handle", format!("n{si} does not list n{sj}, yet an RPC over a Peer handle taken {} ms ago succeeded: the connection it belongs to was removed from the connected set without being closed", (w.now_ns() - taken) / 1_000_000));
             }
+            // an RPC over an old handle that fails (its connection was replaced) is that call's own
+            // business: the peer's current connection stays where it is
+            // (not while a hang-up by either side is on its way: then the handle's connection may
+            // well be the current one, ending)
+            let t_op = w.now_ns();
+            let hangup_under_way = clean_disconnects.iter().any(|(t, c, b)| ((*c == si && *b == sj) || (*c == sj && *b == si)) && t_op.saturating_sub(*t) < (2 * lat_max / 1000 + 50 + 5_000) * 1_000_000);
+            if !ok && lists_now && !hangup_under_way && !faulty && !crashed && silent_death.is_none() && ka_effective.is_some() && mode == Mode::C04 {
+                let still = slots[si].node.net.peers().contains(&ids[sj]);
+                let next = probe(&w, &slots[si].node, ids[sj], 9, Duration::from_secs(5)).await;
+                if !still || next.is_err() {
+                    w.violate("failed-rpc-over-an-old-handle-disturbed-the-current-connection", "stale-handle", format!("n{si} listed n{sj} when an RPC over a Peer handle taken {} ms ago failed; afterwards: still listed = {still}, next rpc = {next:?}", (w.now_ns() - taken) / 1_000_000));
+                }
+                w.probe("failed-rpc-over-an-old-handle");
+            }
             if ok && lists_now {
                 stale.push((si, sj, handle, taken));
             }
@@ -646,6 +680,20 @@ async fn run(input: RunInput, mode: Mode) -> RunOutput {
                     None if now > t_dead + exact_ns => w.violate("silent-loss-detected-later-than-idle-timeout", format!("keepalive={}", match ka_ms { None => "none", Some(k) if k < idle_ms => "below-idle", _ => "at-or-above-idle" }), format!("n{dead} went silent at {} ms; n{a} listed it and has not reported LostPeer {} ms later (idle timeout {idle_ms} ms, keep-alive {ka_ms:?} ms)", t_dead / 1_000_000, (now - t_dead) / 1_000_000)),
                     None => {}
                 }
+            }
+        }
+        // (0b) a disconnect issued in reaction to a failed call found the peer listed and returned Ok:
+        // it is that call that took the peer off the list, so the event says Requested
+        for (t, a, bpeer, listed, ok) in reactive.lock().unwrap().iter() {
+            if !*listed || !*ok || slots[*a].incarnation > 0 {
+                continue;
+            }
+            let log = slots[*a].log.lock().unwrap().clone();
+            let ev = log.iter().find(|(te, e)| *te + 2_000_000 >= *t && matches!(e, PeerEvent::LostPeer(q, _) if *q == ids[*bpeer]));
+            match ev {
+                Some((_, PeerEvent::LostPeer(_, DisconnectReason::Requested))) => w.probe("reactive-disconnect-found-the-peer-listed"),
+                Some((te, e)) => w.violate("disconnect-without-lostpeer-requested", "reactive", format!("n{a} disconnected n{bpeer} at {} ms in reaction to a failed call, found it listed and got Ok, but the event published is {e:?} (at {} ms)", t / 1_000_000, te / 1_000_000)),
+                None => w.violate("disconnect-without-lostpeer-requested", "reactive", format!("n{a} disconnected n{bpeer} at {} ms (listed, Ok) and no LostPeer followed", t / 1_000_000)),
             }
         }
         // (1) mutual views, and every listed peer answers.
